@@ -189,6 +189,8 @@ class Loop(Node):
         self._invalidate_duration()
 
     def unroll_children(self) -> None:
+        if self.is_leaf():
+            raise RuntimeError('Leaves cannot be unrolled')
         if self.volatile_repetition:
             warnings.warn("Unrolling a Loop with volatile repetition count", VolatileModificationWarning)
         old_children = self.children
